@@ -83,6 +83,23 @@ def main(tier):
     json.dump({'recs': recs}, open(rf, 'w'))
     r = V.tlc(PP, os.path.join(V.SPEC, 'avoid', 'PolyPath.cfg'), env={'POLYRECS': rf}, timeout=3000, cont=True, mem='24g')
     ev.add_tlc('PolyPath: visibility of every route segment + refutation search over %d records' % len(recs), r)
+    # invalid routes are classified by the route-validity specification (RouteValid.tla), which knows the two touching/collinear
+    # classes of the known findings F4 and F30
+    invalid = sorted({st.get('k') for inv, st in V.violating_states(r) if inv == 'ValidRoute' and st.get('k') is not None})
+    rv_tags = {}
+    if invalid:
+        LSV = 1024
+        vrecs = [{'mode': 0, 'thrown': bool(recs[k - 1]['thrown']), 'what': '', 'P': recs[k - 1]['P'], 'buf': 0, 'opts': 0,
+                  'polys': [[[p[0] * LSV, p[1] * LSV] for p in sh] for sh in recs[k - 1]['polys']],
+                  'src': [recs[k - 1]['src'][0] * LSV, recs[k - 1]['src'][1] * LSV], 'dst': [recs[k - 1]['dst'][0] * LSV, recs[k - 1]['dst'][1] * LSV],
+                  'disp': [[int(round(p[0] * LSV)), int(round(p[1] * LSV))] for p in recs[k - 1]['route']]} for k in invalid]
+        vf = os.path.join(d, 'invalid_recs.json')
+        json.dump({'chunk': 100, 'recs': vrecs}, open(vf, 'w'))
+        rvr = V.tlc(os.path.join(V.SPEC, 'avoid', 'RouteValid.tla'), os.path.join(V.SPEC, 'avoid', 'RouteValid.cfg'), env={'VALIDRECS': vf}, timeout=1500, cont=True)
+        ev.add_tlc('RouteValid: classification of %d invalid routes' % len(invalid), rvr)
+        for inv2, st2 in V.violating_states(rvr):
+            for (i, t) in st2.get('bad', []):
+                rv_tags.setdefault(invalid[i - 1], set()).add(t)
     seen = set()
     for inv, st in V.violating_states(r):
         k = st.get('k')
@@ -104,7 +121,13 @@ def main(tier):
                         return True
             return False
         if inv == 'ValidRoute':
-            vd.violation('visibility:segment-through-two-collinear-shape-vertices' if (not rec['thrown'] and rec['exact'] and through_two_vertices(rec)) else 'poly:invalid-route', 'route is not an obstacle-avoiding polyline between the endpoints: polys=%s src=%s dst=%s P=%s route=%s thrown=%s' %
+            tg = rv_tags.get(k, set())
+            key = 'poly:invalid-route'
+            if not rec['thrown'] and rec['exact'] and (through_two_vertices(rec) or tg == {'through-shape:via-two-of-its-vertices'}):
+                key = 'visibility:segment-through-two-collinear-shape-vertices'
+            elif tg and all(t.startswith('through-shape:crossing-only-at-shape-vertices') for t in tg):
+                key = 'visibility:touching-shapes:segment-crosses-boundary-only-at-shape-vertices'
+            vd.violation(key, 'route is not an obstacle-avoiding polyline between the endpoints: polys=%s src=%s dst=%s P=%s route=%s thrown=%s' %
                          (rec['polys'], rec['src'], rec['dst'], rec['P'], rec['route'], rec['thrown']), rec)
         else:
             vd.violation('poly:not-shortest' + (':penalised' if rec['P'] > 0 else ''),
